@@ -139,7 +139,7 @@ def main():
         ],
         "checks": checks,
         "not_applicable": na,
-        "notes": "Property-based testing and fuzzing only. ./check <ID> quick|thorough; VERIF_SEED selects the PRNG seed. Exit 0 = held, 1 = VIOLATION lines, 2 = inconclusive. known_findings.txt lists repaired defects (fixed:, suppress nothing) and recorded ones (known:, four for C08, printed as KNOWN-FINDING on every run of ./check C08). seeded/ holds 219 independently produced changes to /repo with their detection records (DESIGN.md section 12).",
+        "notes": "Property-based testing and fuzzing only. ./check <ID> quick|thorough; VERIF_SEED selects the PRNG seed. Exit 0 = held, 1 = VIOLATION lines, 2 = inconclusive. known_findings.txt lists repaired defects (fixed:, suppress nothing) and recorded ones (known:, four for C08, printed as KNOWN-FINDING on every run of ./check C08). seeded/ holds 231 independently produced changes to /repo with their detection records (DESIGN.md section 12).",
     }
     if not na:
         m["not_applicable"] = []
